@@ -1171,7 +1171,8 @@ class PolyhedralTermList(TermList):  # noqa: WPS338
             else:
                 # the optimum is computed in floating point: a constraint met with
                 # equality must not be reported as violated because of round-off
-                if -res["fun"] <= b_temp + 1e-6 * (1 + abs(b_temp)):  # noqa: WPS309, WPS432
+                # (the allowance stays below the relaxation by 1 of the row under test, whatever the constant)
+                if -res["fun"] <= b_temp + min(1e-6 * (1 + abs(b_temp)), 0.5):  # noqa: WPS309, WPS432
                     logging.debug("Redundant constraint")
                 else:
                     is_refinement = False
